@@ -55,7 +55,10 @@ class Check(BaseCheck):
             if c["name"] != "fan3":
                 t = gen.flip_some(rng, t, rng.choice([0.0, 0.1, 0.5, 0.9, 1.0]))
                 t = gen.rotate_rows(rng, t)
-            yield dict(v=c["v"], t=t, name=c["name"], pres=c.get("pres"), vdtype=c.get("vdtype"))
+            v = c["v"]; name = c["name"]; vd = c.get("vdtype")
+            if k % 4 == 2:          # the same mesh far away from the origin (10^6..10^8 times its size): orientation does not depend on position
+                u = rng.normal(size=3); v = v + 10.0 ** rng.uniform(6, 8) * np.ptp(v, axis=0).max() * u / np.linalg.norm(u); name += "+far"; vd = None
+            yield dict(v=v, t=t, name=name, pres=c.get("pres"), vdtype=vd)
         # narrow index dtypes on meshes with more than 256 / many vertices (index arithmetic must not overflow)
         rng = gen.rng_for(self.seed, "c10-dtype")
         v, t = gen.icosphere(3)
@@ -127,6 +130,10 @@ class Check(BaseCheck):
                 return core.Violation("oriented", "mesh not oriented after orient_", case)
             if m2.is_closed() and m2.volume() < -1e-12:
                 return core.Violation("volume", "closed mesh has negative volume %.6g after orient_" % m2.volume(), case)
+            vc = v - v.mean(axis=0)          # enclosed volume evaluated independently, on centred coordinates
+            vol_c = float(np.sum(np.einsum("ij,ij->i", vc[t2[:, 0]], np.cross(vc[t2[:, 1]], vc[t2[:, 2]]))) / 6.0)
+            if m2.is_closed() and vol_c < -1e-9 * np.ptp(v, axis=0).max() ** 3:
+                return core.Violation("volume", "closed mesh is inside-out after orient_ (enclosed volume %.6g, computed on centred coordinates)" % vol_c, case)
         nd = sum(winding_differs(a, bb) for a, bb in zip(t, t2))
         if nd != flipped:
             return core.Violation("count", "returned %d but %d triangles changed their winding" % (flipped, nd), case, observed=flipped, expected=nd)
